@@ -923,7 +923,7 @@ fn c16check(tier: &str) -> i32 {
     }
     run_e1(jobs, &|cx, rep, _| props_e1::check_c16(cx, rep), &mut rep);
     // what a joiner does next: its rotation obligation survives every other commit of its own; its own invitations work
-    for bk in if tier == "quick" { vec![lab::Bk::Memory] } else { vec![lab::Bk::Memory, lab::Bk::Sqlite] } {
+    for bk in [lab::Bk::Memory, lab::Bk::Sqlite] {
         scripted::c16_joiner_goes_on(&mut rep, bk);
     }
     // an accept that fails (the key package the invitation was addressed to is gone by then) never yields an active group
